@@ -121,6 +121,17 @@ CONFIGS["two_wrappers"] = {"deps": {"A": {"locs": {"a0": {"cores": 1, "memory": 
 CONFIGS["inner_and_wrapper"] = {"deps": {"A": {"locs": {"a0": {"cores": 1, "memory": 2, "storage": {"/": 8.0}}}},
                                          "W": {"wraps": "A", "locs": {"w0": {"cores": 2, "memory": 2, "storage": {"/": 8.0}}}}},
                                 "targets": [("A", 1), ("W", 1)], "req": {"cores": 1, "memory": 1, "out": 0, "tmp": 0}}
+# a multi-location target whose wrapper locations all sit on ONE inner host: the host must hold the SUM of what the
+# selected locations need (C10 only: a job that needs 2 x 1 core on a 1-core host is never allocated)
+CONFIGS["shared_multi_1core"] = {"deps": {"A": {"locs": {"a0": {"cores": 1, "memory": 4, "storage": {"/": 8.0}}}},
+                                          "W": {"wraps": "A", "locs": {"w0": {"cores": 2, "memory": 2, "storage": {"/": 8.0}},
+                                                                       "w1": {"cores": 2, "memory": 2, "storage": {"/": 8.0}}}}},
+                                 "targets": [("W", 2)], "req": {"cores": 1, "memory": 1, "out": 0, "tmp": 0}}
+CONFIGS["shared_multi_mem"] = {"deps": {"A": {"locs": {"a0": {"cores": 4, "memory": 3, "storage": {"/": 8.0}}}},
+                                        "W": {"wraps": "A", "locs": {"w0": {"cores": 2, "memory": 2, "storage": {"/": 8.0}},
+                                                                     "w1": {"cores": 2, "memory": 2, "storage": {"/": 8.0}}}}},
+                               "targets": [("W", 2)], "req": {"cores": 1, "memory": 2, "out": 0, "tmp": 0}}
+C10_ONLY = ("shared_multi_1core", "shared_multi_mem")
 PROBE_CONFIGS = ("stacked_shared", "stacked_slots_shared")
 
 
@@ -384,15 +395,19 @@ def key_base(params):
     return f"config={params['config']}|scripts={'+'.join(params['scripts'])}{extra}"  # same key in full and idle-only mode
 
 
-def cases(tier, retry_delay=0):
+def cases(tier, retry_delay=0, prop=None):
     out = []
+    if prop == "C10":
+        for c in C10_ONLY:
+            out.append({"config": c, "scripts": ["ok"], "bound": 1, "retry_delay": retry_delay})
+            out.append({"config": c, "scripts": ["ok", "ok"], "bound": 1, "retry_delay": retry_delay})
     quick = tier == "quick"
     trios = [("ok", "ok", "ok"), ("ok", "dup_done", "fail_fireable"), ("dup_running", "ok", "cancel"),
              ("recover", "ok", "ok"), ("recover_fireable", "ok", "fail_dup")]
     pairs = [("ok", "ok"), ("dup_done", "ok"), ("recover", "ok"), ("fail_dup", "ok"), ("recover", "recover_fireable"),
              ("cancel", "dup_running"), ("fail_fireable", "ok"), ("recover", "dup_done"),
              ("rollback_running", "ok"), ("rollback_fireable", "ok"), ("rollback_then_failed", "ok")]
-    cfgs = [c for c in CONFIGS if c not in PROBE_CONFIGS and c not in ("hw2cores", "xy", "two_wrappers", "inner_and_wrapper")]
+    cfgs = [c for c in CONFIGS if c not in PROBE_CONFIGS and c not in ("hw2cores", "xy", "two_wrappers", "inner_and_wrapper") + C10_ONLY]
     for c in PROBE_CONFIGS:
         out.append({"config": c, "scripts": ["ok", "ok"], "bound": 0, "retry_delay": retry_delay})
     for c in cfgs:
@@ -521,7 +536,7 @@ def generic_main(prop, module, argv, retry_delay=0, rule_extra=""):
     wfkit.quiet_logging()
     if args.replay:
         return _exec.replay_main(prop, module, args.replay)
-    cs = cases(args.tier, retry_delay=retry_delay)
+    cs = cases(args.tier, retry_delay=retry_delay, prop=prop)
     bound = 1 if args.tier == "quick" else 2
     cb = {i: c["bound"] for i, c in enumerate(cs)}
     return _exec.generic_main(
